@@ -147,6 +147,38 @@ int main(int argc, char** argv) {
             }
             sink.count(nvec > 4000 ? "nvec.gt4000" : nvec > 1000 ? "nvec.gt1000" : "nvec.le1000");
         }
+
+        // formatted unified summary data file written by the real stream sequence against
+        // Model/SmryFmt.lean (SEQHDR / MINISTEP / PARAMS through the formatted writer model);
+        // the 17-character fields are rendered by the real EclOutput in a scratch file
+        {
+            int nruns = tier == "thorough" ? 40 : 8;
+            for (int k = 0; k < nruns; ++k) {
+                int nvec = rng.pick(std::vector<int>{ 1, 3, 4, 5, 17, 999, 1000, 1001, 2003 });
+                if (nvec > 900 && tier != "thorough" && k > 2) nvec = rng.range(1, 40);
+                int nsteps = rng.range(1, 6);
+                std::vector<Mini> ms; int seq = rng.range(0, 2), id = 0;
+                std::string op = "smryfmt.file -1 ";
+                for (int i = 0; i < nsteps; ++i) {
+                    if (i && rng.coin(1, 2)) seq += rng.range(1, 3);
+                    Mini m; m.seq = seq; m.id = id++; m.params.resize(nvec);
+                    for (auto& v : m.params) v = (float) ((rng.unit() - 0.3) * std::pow(10.0, rng.range(-5, 8)));
+                    ms.push_back(m);
+                    std::string pf = tmp + "/S.FUNSMRY";
+                    { EclOutput out(pf, true, std::ios::out); out.write("PARAMS", m.params); }
+                    std::string txt = vh::slurp(pf).substr(31), fields;
+                    for (char c : txt) if (c != '\n') fields += c;
+                    fs::remove(pf);
+                    if (i) op += "|";
+                    op += std::to_string(m.seq) + "," + std::to_string(m.id) + "," + vh::hex(fields);
+                }
+                cleanDir(tmp);
+                writeData(rs, true, true, ms);
+                sink.emit(op, vh::hex(vh::slurp(tmp + "/CASE.FUNSMRY")));
+                sink.count("fmtfile");
+                cleanDir(tmp);
+            }
+        }
         // combine / split of summary numbers through the real functions
         for (int i = 0; i < 200; ++i) {
             int n1 = rng.range(0, 32767), n2 = rng.range(-10, 60000);
